@@ -213,6 +213,8 @@ Record session := {
   o_flags : list N;            (* positions of the nodes with breakOnLine || breakOnCall *)
   o_valid_lines : list N; o_valid_funcs : list N;
   o_out : list N;              (* marker lines printed by the debugged program, in order *)
+  o_same_output : N;           (* 1: output and outcome of the debugged program are those of the plain run over
+                                  the same closures ([s_acts]), compared as strings by the harness; 2: not compared *)
   (* reference derived from the program's output *)
   r_lines : list N;            (* marker lines with a breakpoint that the plain run printed, in order *)
   r_out : list N;              (* marker lines printed by the plain run, in order *)
@@ -227,6 +229,7 @@ Definition session_ok_y (c : session) : bool :=
   && same_setN vl (o_valid_lines c) && same_setN vf (o_valid_funcs c)
   && list_eqb ev_eqb (y_events (s_nodes c) flags (s_acts c) (map mk_req (s_reqs c))) (map mk_event (o_events c))
   && (N.eqb (s_exact c) 2 || list_eqb N.eqb (out_lines (s_nodes c) (s_acts c) (s_markers c)) (o_out c))
+  && negb (N.eqb (o_same_output c) 0)
   && (N.eqb (s_exact c) 2
       || Bool.eqb (y_exact (s_nodes c) flags (s_acts c) (map mk_req (s_reqs c))) (N.eqb (s_exact c) 1)).
 
